@@ -277,7 +277,8 @@ def root_cause(text, ep, o):
         if any(inner_names(a) & dn for a in actuals):
             return 'actual-mentions-dummy-name'
     # 1b. strided section as actual argument / whole array larger than the explicit-shape dummy
-    for r, actuals, c in calls:
+    sub_calls = [x for x in calls if isinstance(x[2], ir.CallStatement)]
+    for r, actuals, c in sub_calls:
         for a in actuals:
             if isinstance(a, sym.Array) and any(isinstance(d, sym.RangeIndex) and d.step is not None
                                                 for d in (a.dimensions or ())):
@@ -290,7 +291,7 @@ def root_cause(text, ep, o):
                     if ed and ea and ed != ea:
                         return 'larger-actual'
     # 1b'. section actual with literal lower bound 0 / assumed-shape dummy with a caller array whose lower bound is not 1
-    for r, actuals, c in calls:
+    for r, actuals, c in sub_calls:
         for a in actuals:
             if isinstance(a, sym.Array) and any(isinstance(d, sym.RangeIndex) and d.lower is not None and intval(d.lower) == 0
                                                 for d in (a.dimensions or ())):
@@ -311,7 +312,8 @@ def root_cause(text, ep, o):
             if str(c.function).lower() in sfnames:
                 all_calls.append((None, list(c.parameters), c))
     for r, actuals, c in all_calls:
-        if any(isinstance(a, (pp.Product, pp.Quotient)) for a in actuals):
+        # (ParenthesisedMul / ParenthesisedDiv = written in parentheses in the source: printed with them)
+        if any(isinstance(a, (pp.Product, pp.Quotient)) and not type(a).__name__.startswith('Parenthesised') for a in actuals):
             return 'multiplicative-actual'
     # 1c. LBOUND / UBOUND of an array dummy with lower bound /= 1
     for r in inl_subs + inl_funs:
@@ -559,13 +561,13 @@ class Shared:
                     parts[cur].append(ln)
         for i in [0] + good:
             if rc == 0 and i in parts:
-                out[i] = Res('run', 0, '\n'.join(parts[i]), '')
+                out[i] = Res('run', 0, '\n'.join(parts[i]).rstrip('\n'), '')
             else:
                 r1, o1, e1 = self._run(i, 1)
                 if r1 is None:
                     out[i] = Res('run-timeout', -1, '', 'run timeout')
                 else:
-                    o1 = '\n'.join(ln for ln in o1.split('\n') if not ln.startswith('@@variant '))
+                    o1 = '\n'.join(ln for ln in o1.split('\n') if not ln.startswith('@@variant ')).rstrip('\n')
                     out[i] = Res('run', r1, o1, e1)
         return out
 
